@@ -9,7 +9,7 @@ git -C /repo worktree add -q --detach "$WT" HEAD || exit 3
 if ! git -C "$WT" apply "$PATCH"; then echo "PATCH DOES NOT APPLY"; git -C /repo worktree remove --force "$WT"; exit 3; fi
 OUT=$(mktemp -d /tmp/seeded_out_XXXX)
 cd /verif
-VERIF_REPO_SRC="$WT/src" VERIF_EVIDENCE_DIR="$OUT/evidence" VERIF_REPLAY_DIR="$OUT/replays" VERIF_NO_PROBE=1 \
+VERIF_REPO_SRC="$WT/src" VERIF_EVIDENCE_DIR="$OUT/evidence" VERIF_REPLAY_DIR="$OUT/replays" VERIF_NO_PROBE=1 VERIF_NO_SHRINK=${VERIF_NO_SHRINK-1} \
   timeout 3000 /venv/bin/python run_check.py "$PROP" --tier "$TIER" "$@" > "$OUT/log" 2>&1
 rc=$?
 echo "SEEDED $(basename $(dirname $PATCH)) check=$PROP tier=$TIER rc=$rc  violations=$(grep -c '^VIOLATION' $OUT/log) known=$(grep -c '^KNOWN-FINDING' $OUT/log) harness=$(grep -c '^HARNESS-ERROR' $OUT/log)"
